@@ -1,4 +1,4 @@
 #!/bin/bash
 # tools/collect4.sh PROP... (ROUND=4|5) : copy a finished round-4 agent's deliverables and remove its worktree
-cd /verif; R=${ROUND:-6}
+cd /verif; R=${ROUND:-7}
 for id in "$@"; do mkdir -p seeded/_incoming$R/$id; cp /tmp/wt$R/$id/out/change_[123].diff /tmp/wt$R/$id/out/demo_[123].py /tmp/wt$R/$id/out/notes_[123].md seeded/_incoming$R/$id/ && git -C /repo worktree remove --force /tmp/wt$R/$id; echo "$id $(ls seeded/_incoming$R/$id | wc -l)"; done
